@@ -281,6 +281,12 @@ def neval(e: ast.AST, env: Dict[str, object]):
     return tuple(neval(x, env) for x in e.elts)
   if isinstance(e, ast.Subscript) and isinstance(e.slice, ast.Constant):
     return neval(e.value, env)[e.slice.value]
+  if isinstance(e, ast.Subscript) and not isinstance(e.slice, ast.Slice):
+    base, idx = neval(e.value, env), neval(e.slice, env)
+    try:
+      return base[idx]
+    except (KeyError, IndexError, TypeError):
+      raise NoValue(key)
   if isinstance(e, ast.BinOp):
     l, r = neval(e.left, env), neval(e.right, env)
     ops = {ast.Add: lambda: l + r, ast.Sub: lambda: l - r, ast.Mult: lambda: l * r, ast.Div: lambda: l / r,
